@@ -95,7 +95,7 @@ func c08Run(r *vt.Run, c c08Case) {
 	}
 	local := "h1"
 	switch c.Local {
-	case "replica":
+	case "replica", "became-cascade":
 		local = "h2"
 	case "cascade":
 		spec.Cascade = map[string]string{"c1": "h1"}
@@ -145,6 +145,17 @@ func c08Run(r *vt.Run, c c08Case) {
 		if a.state != stateCandidate {
 			r.Violate("C08/0-engine", fmt.Sprintf("setup: expected Candidate, got %s: %s", a.state, c), c)
 			return
+		}
+		if c.Local == "became-cascade" {
+			// while the daemon runs the operator turns the local host into a cascade replica
+			// (`mysync host add h2 --stream-from h1`); the daemon sees it in its next iteration
+			w.ZK.Del(vns + "/ha_nodes/" + local)
+			w.ZK.Put(vns+"/cascade_nodes/"+local, `{"stream_from":"h1"}`)
+			h.Tick(a)
+			if a.state != stateCandidate {
+				r.Violate("C08/0-engine", fmt.Sprintf("setup: expected Candidate after the re-registration, got %s: %s", a.state, c), c)
+				return
+			}
 		}
 		if c.Local == "mysql-down" {
 			lsrv.Up = false
@@ -287,7 +298,7 @@ func c08Run(r *vt.Run, c c08Case) {
 				}
 			}
 			// decision
-			mustNotTouch := n == 1 || c.Local == "cascade" || c.DisableRO
+			mustNotTouch := n == 1 || c.Local == "cascade" || c.Local == "became-cascade" || c.DisableRO
 			liveGroup, open := false, false
 			if c.Local == "master" && !mustNotTouch {
 				if c.Async {
@@ -488,7 +499,7 @@ func checkC08(r *vt.Run) {
 		}
 	}
 	// local replica / cascade-only host / local MySQL down
-	for _, loc := range []string{"replica", "cascade", "mysql-down"} {
+	for _, loc := range []string{"replica", "cascade", "mysql-down", "became-cascade"} {
 		for n := 2; n <= maxN; n++ {
 			for _, rem := range multisets(n-1, []int{kStreaming, kRefusing, kTimeout}) {
 				for _, cf := range cfgs[:1:1] {
